@@ -3,6 +3,8 @@ import NmVerif.Containers.Spec
 import NmVerif.Containers.Vector
 import NmVerif.Containers.VectorProofs
 import NmVerif.Containers.VectorLedger
+import NmVerif.Containers.StaticVector
+import NmVerif.Containers.StaticVectorProofs
 /-
   C19 — The STL-free containers behave like their standard counterparts over any history.
   Property statements only (+ non-vacuity examples, counterexample theorems for the defects of the unchanged tree).
@@ -144,5 +146,51 @@ theorem vector_alias_push_counterexample :
     viewOf (run (vecImpl Int) World.empty h) 0 = some [some 10, some 11, some 12, some 13, none] ∧
     (run (vecImpl Int) World.empty h).led.events = [.uaf] ∧
     specOf (run (stdSpec 0) World.empty h) 0 = some [some 10, some 11, some 12, some 13, some 10] := by decide
+
+/-! ### utl::static_vector, utl::array -/
+
+/-- `static_vector<T,c>` holds exactly what a vector bounded by capacity `c` holds (operations that do not fit are
+    refused, contents unchanged) after every history whose sized / variadic constructions fit the capacity and
+    whose resizes either do not exceed the current size or exceed the capacity (`svecOk`) -/
+theorem staticVector_refines (c : Nat) (zero : α) (h : List (Op α))
+    (hok : AllOk (boundedSpec c zero) (svecOk c) World.empty h) :
+    WRel (RSVec c) (run (svecImpl c zero) World.empty h) (run (boundedSpec c zero) World.empty h) :=
+  run_sim (svec_sim c zero) h (wrel_empty _) hok
+
+example : AllOk (boundedSpec 4 (0 : Int)) (svecOk 4) World.empty
+    [.ctorN 0 3, .push 0 7, .push 0 8, .ctorV 1 [1, 2, 3], .assign 1 0, .resize 0 1, .resize 0 9, .pushAt 1 0, .write 1 1 5] := by
+  simp [AllOk, svecOk, step, boundedSpec, World.empty, World.put, Op.target, listResize]
+
+/-- no element access leaves the fixed buffer and the heap is never used, for every history whose sized /
+    variadic constructions fit the capacity -/
+theorem staticVector_no_oob (c : Nat) (zero : α) (h : List (Op α)) (hok : ∀ op ∈ h, svecSafeOk c op) :
+    (run (svecImpl c zero) World.empty h).led.Untouched ∧
+    ∀ k x, (run (svecImpl c zero) World.empty h).objs k = some x → x.cells.length = c ∧ x.size ≤ c :=
+  let hw := run_pres (svec_pres c zero) h (w := World.empty) ⟨by simp [World.empty], by simp [World.empty, Ledger.Untouched]⟩ hok
+  ⟨hw.2, hw.1⟩
+
+/-- `utl::array<T,n>` is `std::array<T,n>` after every history (no excluded operation) -/
+theorem array_refines (n : Nat) (zero : α) (h : List (Op α)) :
+    WRel (RArr n) (run (arrImpl n zero) World.empty h) (run (arraySpec n zero) World.empty h) :=
+  run_sim (arr_sim n zero) h (wrel_empty _) (by
+    generalize (World.empty : World (List α)) = v
+    induction h generalizing v with
+    | nil => trivial
+    | cons op h ih => exact ⟨trivial, ih _⟩)
+
+def sviewOf (w : World (SVec Int)) (k : Nat) : Option (Nat × List (Cell Int)) := (w.objs k).map (fun x => (x.size, x.view))
+def bviewOf (w : World (List Int)) (k : Nat) : Option (Nat × List (Cell Int)) := (w.objs k).map (fun l => (l.length, l.map some))
+
+/-- `static_vector<int,4>(7)` reports size 7 -/
+theorem staticVector_oversize_counterexample :
+    sviewOf (run (svecImpl 4 (0 : Int)) World.empty [.ctorN 0 7]) 0 = some (7, [some 0, some 0, some 0, some 0]) ∧
+    bviewOf (run (boundedSpec 4 (0 : Int)) World.empty [.ctorN 0 7]) 0 = some (0, []) ∧
+    (run (svecImpl 4 (0 : Int)) World.empty [.ctorN 0 7, .read 0 5]).led.events = [.oob] := by decide
+
+/-- shrink-then-grow re-exposes the old values -/
+theorem staticVector_stale_counterexample :
+    let h : List (Op Int) := [.ctor 0, .push 0 1, .push 0 2, .push 0 3, .resize 0 1, .resize 0 3]
+    sviewOf (run (svecImpl 4 (0 : Int)) World.empty h) 0 = some (3, [some 1, some 2, some 3]) ∧
+    bviewOf (run (boundedSpec 4 (0 : Int)) World.empty h) 0 = some (3, [some 1, some 0, some 0]) := by decide
 
 end NmVerif.Props.C19
